@@ -148,8 +148,17 @@ static void chk_mixed(const T3 &a, u64 bv, long long &ev)
     // aliasing forms of the mixed ops
     set3(A, a); Goldilocks3::add(A, A, B); ev++; if (!eqmod(A, oadd(a, b))) bad("add31", 1, a, b, A, oadd(a, b));
     set3(A, a); Goldilocks3::mul(A, A, B); ev++; if (!eqmod(A, exm)) bad("mul31", 1, a, b, A, exm);
+    set3(A, a); Goldilocks3::mul(A, B, A); ev++; if (!eqmod(A, exm)) bad("mul13", 1, a, b, A, exm);
+    set3(A, a); Goldilocks3::sub(A, A, B); ev++; if (!eqmod(A, osub(a, b))) bad("sub31", 1, a, b, A, osub(a, b));
+    set3(A, a); Goldilocks3::sub(A, B, A); ev++; if (!eqmod(A, osub(b, a))) bad("sub13", 1, a, b, A, osub(b, a));
+    set3(A, a); Goldilocks3::add(A, B, A); ev++; if (!eqmod(A, oadd(a, b))) bad("add13", 1, a, b, A, oadd(a, b));
     if (bv % PR != 0)
     {
+        set3(A, a); Goldilocks3::div(A, A, B); ev++; // result aliases the dividend
+        {
+            T3 back{{F.mul(A[0].fe, bv), F.mul(A[1].fe, bv), F.mul(A[2].fe, bv)}};
+            if (!(back.c[0] == a.c[0] % PR && back.c[1] == a.c[1] % PR && back.c[2] == a.c[2] % PR)) bad("div", 1, a, b, A, a);
+        }
         set3(A, a); Goldilocks3::div(R, A, B); ev++;
         T3 back{{F.mul(R[0].fe, bv), F.mul(R[1].fe, bv), F.mul(R[2].fe, bv)}};
         if (!(back.c[0] == a.c[0] % PR && back.c[1] == a.c[1] % PR && back.c[2] == a.c[2] % PR)) bad("div", 0, a, b, R, a);
@@ -166,6 +175,12 @@ static void chk_mulscalar_str(const T3 &a, const std::string &st, long long &ev)
     u64 m = mpz_get_ui(r.get_mpz_t());
     T3 ex{{F.mul(a.c[0], m), F.mul(a.c[1], m), F.mul(a.c[2], m)}};
     const char *cls = (z < -pz) ? "below-minus-p" : (z < 0 ? "negative" : (z >= pz ? "big" : "nonneg"));
+    {
+        E3 A2; set3(A2, a);
+        std::string s3 = st;
+        Goldilocks3::mulScalar(A2, A2, s3); ev++; // result aliases the operand
+        if (!eqmod(A2, ex)) rep().viol(fmt("C09.wrong.mulScalar.alias.w%u", W), casestr("mulScalar", 1, a, T3{{0, 0, 0}}) + " z=" + st, "in-place mulScalar differs");
+    }
     if (!eqmod(R, ex))
         rep().viol(fmt("C09.wrong.mulScalar.%s.w%u", cls, W), casestr("mulScalar", 0, a, T3{{0, 0, 0}}) + " z=" + st,
                    fmt("got (%s,%s,%s) expected (%s)", hex(R[0].fe).c_str(), hex(R[1].fe).c_str(), hex(R[2].fe).c_str(), t3s(ex).c_str()));
